@@ -32,6 +32,7 @@ After EVERY operation of every history of <= L operations from the empty object:
   Duplicate error) is the list model's.
 """
 import argparse
+import itertools
 import json
 import os
 import re
@@ -683,7 +684,71 @@ class ObjModels:
 		def unwrap_or_default(ip, st, a):
 			return a[0].fields[0] if a[0].variant == "Some" else Agg("ObjIndexes", None, ((), 0))
 
+		def any_next(ip, st, ref):
+			"""[(state, Option<item>)] — `next` of an iterator value held at `ref`: std's slice iterator
+			and its `enumerate` adaptor are models (std's contract), the crate's IterMapped is its MIR"""
+			it = self.rd(ip, st, ref)
+			if it.ty == "SliceIter":
+				s2 = st.fork()
+				return [(s2, slice_iter_next(ip, s2, [ref]))]
+			if it.ty == "Enumerate":
+				out = []
+				for s2, r in any_next(ip, st, Ref(ref[0], ref[1], ref[2] + (0,))):
+					if r.variant == "None":
+						out.append((s2, NONE))
+						continue
+					cur = self.rd(ip, s2, ref)
+					self.wr(ip, s2, ref, Agg("Enumerate", None, (cur.fields[0], cur.fields[1] + 1)))
+					out.append((s2, some(Agg("tuple", None, (cur.fields[1], r.fields[0])))))
+				return out
+			if it.ty == "IterMapped" and isinstance(it.fields[0], Agg) and it.fields[0].ty == "SliceIter":
+				fn = prog.resolve("<array::IterMapped as Iterator>::next" if not it_is_object(ip, st, it) else "<IterMapped as Iterator>::next", None, [])
+				if fn is None:
+					raise MirError("IterMapped::next not found in the MIR dump")
+				return list(ip.run_sub(st, fn, [ref]))
+			raise MirError("next of %r" % (it.ty,))
+
+		def it_is_object(ip, st, it):
+			v = deref_val(ip, st, it.fields[0].fields[0])
+			return bool(v[1]) and isinstance(v[1][0], Agg) and v[1][0].ty == "Entry"
+
+		def map_collect(ip, st, a):
+			"""`iter.map(f).collect::<Result<Vec<_>, _>>()`: std's contract — the items mapped in order, the
+			first Err returned as soon as it is produced, else Ok of all the Ok payloads. The inner
+			iterator's `next` (when the crate's) and the closure are the crate's MIR."""
+			inner, clo = a[0].fields
+			fi = len(st.frames) - 1
+			st.frames[fi].locals[910 + fi] = inner
+			c = ip.fn_value_call(clo, [None])
+			if c is None:
+				raise MirError("Map::collect with %r" % (clo,))
+			st.frames[fi].locals[940 + fi] = c.args[0]
+			out = []
+			work = [(st, ())]
+			while work:
+				s, acc = work.pop()
+				for s2, r in any_next(ip, s, Ref(fi, 910 + fi, ())):
+					if r.variant == "None":
+						out.append((s2, Agg("Result", "Ok", (("vec", acc),))))
+						continue
+					for s3, q in ip.run_sub(s2, c.fn, [Ref(fi, 940 + fi, ()), r.fields[0]]):
+						if q.variant == "Err":
+							out.append((s3, Agg("Result", "Err", (q.fields[0],))))
+						else:
+							work.append((s3, acc + (q.fields[0],)))
+			return out
+
+		mk_map = one(lambda ip, st, a: Agg("MapIter", None, (a[0], a[1])))
+		mk_enum = one(lambda ip, st, a: Agg("Enumerate", None, (a[0], 0)))
+
 		base = {
+			"<array::IterMapped as Iterator>::map": mk_map,
+			"<std::slice::Iter as Iterator>::map": mk_map,
+			"<Enumerate as Iterator>::map": mk_map,
+			"<std::slice::Iter as Iterator>::enumerate": mk_enum,
+			"<array::IterMapped as Iterator>::enumerate": mk_enum,
+			"<Map as Iterator>::collect": map_collect,
+			"<Mapped as Into>::into": one(lambda ip, st, a: a[0]),
 			"<CodeMap as Deref>::deref": one(lambda ip, st, a: a[0]),
 			"core::slice::get": one(cm_get),
 			"Option::unwrap": one(opt_unwrap),
@@ -807,6 +872,8 @@ class ObjProgram:
 		for f in fns:
 			h = f.header
 			if "src/object/mod.rs" not in h:
+				if "{closure#" in h:
+					self.closures.append(f)
 				continue
 			m = re.match(r"^object::<impl at src/object/mod\.rs:[0-9: ]+>::(\w+)\(_1: (&mut |&)?(Object|Vec<object::Entry)", h)
 			if m and m.group(1) in self.NAMES:
@@ -870,6 +937,19 @@ class ObjProgram:
 			for f in self.fns:
 				if re.search(r"::next\(_1: &mut %s<" % m.group(1), f.header):
 					return f
+		# array.rs / try_from.rs / lib.rs helpers used by the conversions (C11)
+		pats = {
+			"<Vec as JsonArray>::iter_mapped": r"^array::<impl at src/array\.rs:[0-9: ]+>::iter_mapped\(_1: &Vec<Value>",
+			"<[Value] as JsonArray>::iter_mapped": r"^array::<impl at src/array\.rs:[0-9: ]+>::iter_mapped\(_1: &\[Value\]",
+			"<array::IterMapped as Iterator>::next": r"^array::<impl at src/array\.rs:[0-9: ]+>::next\(_1: &mut array::IterMapped<",
+			"<object::IterMapped as Iterator>::next": r"^object::<impl at src/object/mod\.rs:[0-9: ]+>::next\(_1: &mut object::IterMapped<",
+			"<IterMapped as Iterator>::next": r"^object::<impl at src/object/mod\.rs:[0-9: ]+>::next\(_1: &mut (object::)?IterMapped<",
+			"Value::kind": r"^<impl at src/lib\.rs:[0-9: ]+>::kind\(_1: &Value\) -> Kind",
+		}
+		if callee in pats:
+			for f in self.fns:
+				if re.search(pats[callee], f.header):
+					return f
 		# any other method of Object / Default for Object whose MIR is in the dump
 		m = re.match(r"^(?:<Object as \w+>|Object)::(\w+)$", callee)
 		if m and m.group(1) not in ("iter_mut", "get_entries", "get_entries_with_index"):
@@ -885,8 +965,24 @@ class ObjProgram:
 		return out
 
 
-def struct_fields(repo):
-	t = open(os.path.join(repo, "src", "object", "mod.rs")).read()
+def enum_variants(repo, fname, name):
+	t = open(os.path.join(repo, fname)).read()
+	t = re.sub(r"//[^\n]*", "", t)
+	m = re.search(r"\benum\s+%s\s*\{" % name, t)
+	if not m:
+		raise MirError("enum %s not found in %s" % (name, fname))
+	k = mirx.match_close(t, m.end() - 1)
+	out = []
+	for p_ in mirx.split_top(t[m.end():k]):
+		p_ = re.sub(r"#\[[^\]]*\]", "", p_).strip()
+		mm = re.match(r"(\w+)", p_)
+		if mm:
+			out.append(mm.group(1))
+	return out
+
+
+def struct_fields(repo, fname=os.path.join("src", "object", "mod.rs")):
+	t = open(os.path.join(repo, fname)).read()
 	t = re.sub(r"//[^\n]*", "", t)
 	out = {}
 	for m in re.finditer(r"\bstruct\s+(\w+)\s*(<[^>{]*>)?\s*\{", t):
@@ -910,6 +1006,8 @@ OPS = ["push", "push_front", "remove_at", "insert", "insert_front", "remove", "r
 class Explorer:
 	def __init__(self, repo, mir_text):
 		self.prog = ObjProgram(mirx.parse_mir(mir_text))
+		self.repo = repo
+		self.timed_out = False
 		self.keys = Keys()
 		self.models = ObjModels(self.keys)
 		table = self.models.table(self.prog)
@@ -1348,7 +1446,7 @@ class Explorer:
 		t0 = time.time()
 		prog = self.prog
 		fns = {}
-		for name in ("get_mapped_entries", "get_mapped"):
+		for name in ("get_mapped_entries", "get_mapped", "iter_mapped"):
 			for f in prog.fns:
 				if re.match(r"^object::<impl at src/object/mod\.rs:[0-9: ]+>::%s\(_1: &Object" % name, f.header):
 					fns[name] = f
@@ -1391,13 +1489,15 @@ class Explorer:
 				q = s.aux["nk"]
 				while len(self.keys.vars) <= q:
 					self.keys.fresh()
-				for which in ("get_mapped_entries", "get_mapped"):
+				for which in ("get_mapped_entries", "get_mapped", "iter_mapped"):
 					s0 = s.fork()
 					s0.aux["nk"] = q + 1
 					s0.frames[0].locals[2] = ("key", q)
 					s0.frames[0].locals[9] = ("codemap",)
-					for s1, it in self.call(s0, fns[which], [Ref(0, 1, ()), Ref(0, 9, ()), base, Ref(0, 2, ())]):
-						for s2, ps in self.positions(s1, model, q):
+					args = [Ref(0, 1, ()), Ref(0, 9, ()), base] + ([Ref(0, 2, ())] if which != "iter_mapped" else [])
+					for s1, it in self.call(s0, fns[which], args):
+						# iter_mapped: the full walk yields every entry, in order
+						for s2, ps in (self.positions(s1, model, q) if which != "iter_mapped" else [(s1, list(range(n)))]):
 							s2.frames[0].locals[3] = it
 							cur = [s2]
 							okay = True
@@ -1421,7 +1521,7 @@ class Explorer:
 											self.violation(s4, [[which, [model, "query k%d" % q]]], "C11:mapped-lookup-yields-every-matching-entry", "ended after %d of %d" % (step_i, len(ps)))
 											continue
 										m_ = r.fields[0]
-										if which == "get_mapped_entries":
+										if which in ("get_mapped_entries", "iter_mapped"):
 											off, ent = m_.fields
 											good = prove_eq(off, E[p_]) and prove_eq(ent.fields[0].fields[0], E[p_] + 1) and prove_eq(ent.fields[1].fields[0], E[p_] + 2)
 										else:
@@ -1433,6 +1533,119 @@ class Explorer:
 								cur = nxt
 			if budget and time.time() - t0 > budget:
 				return
+
+	def explore_convert(self, n_max, budget):
+		"""C11: `Vec<T>::try_from_json_at` for T = bool and T = Vec<bool> — the MIR of the conversion, of
+		the array walk `JsonArray::iter_mapped` / `array::IterMapped::next` and of
+		`bool::try_from_json_at`, on every value of the stated shapes, with a SYMBOLIC offset `base` and
+		a code map read through the uninterpreted vol(index), constrained to the C05 layout of the value
+		at `base` (a scalar has volume 1, an array 1 + the volumes of its items). Oracle: the recursive
+		definition — a non-array where an array is wanted gives Err at its own offset with expected
+		ARRAY, a non-boolean where a boolean is wanted gives Err at its own offset with expected BOOLEAN,
+		the first error in document order wins, item i of an array at `o` lies at
+		o + 1 + sum_{j<i} vol(item j); otherwise Ok of the nested booleans."""
+		t0 = time.time()
+		prog = self.prog
+		fn_vec = fn_bool = None
+		for f in prog.fns:
+			if re.match(r"^try_from::<impl at src/try_from\.rs:[0-9: ]+>::try_from_json_at\(_1: &Value, _2: &CodeMap, _3: usize\) -> Result<Vec<T>", f.header):
+				fn_vec = f
+			if re.match(r"^try_from::<impl at src/try_from\.rs:[0-9: ]+>::try_from_json_at\(_1: &Value, _2: &CodeMap, _3: usize\) -> Result<bool, ", f.header):
+				fn_bool = f
+		if fn_vec is None or fn_bool is None:
+			raise MirError("Vec<T>::try_from_json_at / bool::try_from_json_at not found in the MIR dump")
+		self.ip.enums["Value"] = enum_variants(self.repo, "src/lib.rs", "Value")
+		self.ip.enums["Kind"] = enum_variants(self.repo, "src/kind.rs", "Kind")
+		for fname in ("src/array.rs", "src/code_map.rs", "src/try_from.rs"):
+			for k, v in struct_fields(self.repo, fname).items():
+				if k in ("Mapped", "Unexpected"):
+					self.ip.struct_fields[k] = v
+		if self.ip.struct_fields.get("Mapped") != ["offset", "value"] or self.ip.struct_fields.get("Unexpected") != ["expected", "found"]:
+			raise MirError("struct Mapped / Unexpected: unexpected field lists")
+		base = z3.Int("base")
+		self.pairs = 0
+		nesting = {"n": 1}
+
+		# `T::try_from_json_at` inside Vec<T>'s impl: T is Vec<..<bool>> — the instantiation is chosen by
+		# how many frames of the Vec impl are on the stack (type-directed, as monomorphisation does)
+		def t_dispatch(ip, st, a):
+			d = sum(1 for fr in st.frames if fr.fn is fn_vec)
+			return [(st, CallFn(fn_vec if d < nesting["n"] else fn_bool, list(a)))]
+
+		self.ip.models["<T as try_from::TryFromJson>::try_from_json_at"] = t_dispatch
+		self.ip.models["<T as TryFromJson>::try_from_json_at"] = t_dispatch
+
+		def agg(v):
+			if v == "t" or v == "f":
+				return Agg("Value", "Boolean", (v == "t",))
+			if v == "n":
+				return Agg("Value", "Null", ())
+			return Agg("Value", "Array", (("vec", tuple(agg(c) for c in v[1])),))
+
+		def layout(v, off, facts):
+			"""adds vol(off) == volume(v) for v and its descendants; returns the volume"""
+			n = 1
+			if isinstance(v, tuple):
+				for c in v[1]:
+					n += layout(c, off + n, facts)
+			facts.append(self.models.VOL(off) == n)
+			return n
+
+		def oracle(v, off, depth):
+			if depth == 0:
+				return ("Ok", v == "t") if v in ("t", "f") else ("Err", off, "BOOLEAN", CONV_KIND(v))
+			if not isinstance(v, tuple):
+				return ("Err", off, "ARRAY", CONV_KIND(v))
+			at = off + 1
+			acc = []
+			for c in v[1]:
+				r = oracle(c, at, depth - 1)
+				if r[0] == "Err":
+					return r
+				acc.append(r[1])
+				at = at + conv_volume(c)
+			return ("Ok", ("vec", tuple(acc)))
+
+		def prove_eq(x, y, facts):
+			if isinstance(x, int) and isinstance(y, int):
+				return x == y
+			sv = z3.Solver()
+			sv.add(base >= 0)
+			sv.add(*facts)
+			sv.add((x if not isinstance(x, int) else z3.IntVal(x)) != (y if not isinstance(y, int) else z3.IntVal(y)))
+			self.keys.queries += 1
+			return sv.check() == z3.unsat
+
+		for depth, vals in conv_values(n_max):
+			nesting["n"] = depth
+			for v in vals:
+				st = State()
+				st.frames.append(Frame(None, {1: agg(v), 9: ("codemap",)}))
+				st.aux["nk"] = 0
+				hist = [["Vec<%s>::try_from_json_at" % ("bool" if depth == 1 else "Vec<bool>"), [depth, conv_json(v)]]]
+				facts = []
+				layout(v, base, facts)
+				results = self.call(st, fn_vec, [Ref(0, 1, ()), Ref(0, 9, ()), base])
+				if len(results) != 1:
+					raise MirError("conversion of a concrete shape forked: %d results" % len(results))
+				s2, r = results[0]
+				self.pairs += 1
+				self.paths += 1
+				want = oracle(v, base, depth)
+				if want[0] == "Ok":
+					if not (isinstance(r, Agg) and r.variant == "Ok" and r.fields[0] == want[1]):
+						self.violation(s2, hist, "C11:conversion-of-well-typed-array", "yielded %r" % (r,))
+				else:
+					good = isinstance(r, Agg) and r.variant == "Err"
+					if good:
+						m_ = r.fields[0]
+						u = m_.fields[1]
+						good = u.fields[0] == Agg("const", "KindSet::" + want[2], ()) and u.fields[1] == Agg("Kind", want[3], ()) and prove_eq(m_.fields[0], want[1], facts)
+					if not good:
+						self.violation(s2, hist, "C11:conversion-error-at-the-offset-of-the-offending-value", "yielded %r" % (r,))
+				if budget and time.time() - t0 > budget:
+					self.timed_out = True
+					return
 
 	def explore(self, depth, budget):
 		t0 = time.time()
@@ -1619,8 +1832,80 @@ def replay_mapped(native, model, qkey, keyvals):
 		E.append(at)
 		at += 2 + 2
 	ps = [i for i, (k, _) in enumerate(model) if name(k) == q]
-	want = "E %s V %s" % (";".join("%d.%d.%d" % (E[i], E[i] + 1, E[i] + 2) for i in ps), ";".join("%d" % (E[i] + 2) for i in ps))
+	want = "E %s V %s I %s" % (";".join("%d.%d.%d" % (E[i], E[i] + 1, E[i] + 2) for i in ps), ";".join("%d" % (E[i] + 2) for i in ps),
+	                           ";".join("%d.%d.%d" % (e, e + 1, e + 2) for e in E))
 	return dict(object=spec, query=q, got=got, want=want, reproduced=(got != want))
+
+
+def CONV_KIND(v):
+	return "Array" if isinstance(v, tuple) else {"t": "Boolean", "f": "Boolean", "n": "Null"}[v]
+
+
+def conv_volume(v):
+	return 1 + sum(conv_volume(c) for c in v[1]) if isinstance(v, tuple) else 1
+
+
+def conv_json(v):
+	return "[" + ",".join(conv_json(c) for c in v[1]) + "]" if isinstance(v, tuple) else {"t": "true", "f": "false", "n": "null"}[v]
+
+
+def conv_values(n_max):
+	"""[(nesting depth of the target type, values)]: depth 1 = Vec<bool>: scalars and arrays of <= n_max
+	items from {true, false, null, [null]}; depth 2 = Vec<Vec<bool>>: arrays of <= min(n_max, 3) items, each null,
+	true or an array of <= 2 items from {true, null, [null]}"""
+	A1 = ("arr", ("n",))
+	d1 = ["t", "n"] + [("arr", x) for n in range(n_max + 1) for x in itertools.product(["t", "f", "n", A1], repeat=n)]
+	inner = ["n", "t"] + [("arr", x) for n in range(3) for x in itertools.product(["t", "n", A1], repeat=n)]
+	d2 = [("arr", x) for n in range(min(n_max, 3) + 1) for x in itertools.product(inner, repeat=n)]
+	return [(1, d1), (2, d2)]
+
+
+def conv_expected(v, off, depth):
+	if depth == 0:
+		return ("Ok", v == "t") if v in ("t", "f") else ("Err", off, "BOOLEAN", CONV_KIND(v))
+	if not isinstance(v, tuple):
+		return ("Err", off, "ARRAY", CONV_KIND(v))
+	at = off + 1
+	acc = []
+	for c in v[1]:
+		r = conv_expected(c, at, depth - 1)
+		if r[0] == "Err":
+			return r
+		acc.append(r[1])
+		at += conv_volume(c)
+	return ("Ok", acc)
+
+
+def replay_convert(native, depth, text):
+	"""Vec::<bool> / Vec::<Vec<bool>>::try_from_json_at on the REAL value and REAL code map of the
+	parsed document [[0],V] (V at offset 3), against the recursive oracle"""
+	import subprocess
+
+	p = subprocess.run([native, "convert", str(depth), text], stdout=subprocess.PIPE, stderr=subprocess.DEVNULL, timeout=60)
+	got = p.stdout.decode(errors="replace").strip()
+
+	def parse(t, i=0):
+		if t[i] == "[":
+			items = []
+			i += 1
+			while t[i] != "]":
+				if t[i] == ",":
+					i += 1
+				c, i = parse(t, i)
+				items.append(c)
+			return ("arr", tuple(items)), i + 1
+		for w, k in (("true", "t"), ("false", "f"), ("null", "n")):
+			if t.startswith(w, i):
+				return k, i + len(w)
+		raise ValueError(t[i:])
+
+	def dbg(x):
+		return "[" + ", ".join(dbg(c) for c in x) + "]" if isinstance(x, list) else ("true" if x else "false")
+
+	v, _ = parse(text)
+	w = conv_expected(v, 3, depth)
+	want = "OK " + dbg(w[1]) if w[0] == "Ok" else "ERR %d %s %s" % (w[1], w[2], w[3])
+	return dict(depth=depth, value=text, got=got, want=want, reproduced=(got != want))
 
 
 def replay_unordered(native, A, B, keyvals):
@@ -1644,6 +1929,7 @@ def main():
 	ap.add_argument("--depth", type=int, default=3)
 	ap.add_argument("--unordered", type=int, default=-1, help="C15 mode: pairs of objects of <= this many entries")
 	ap.add_argument("--mapped", type=int, default=-1, help="C11 mode: mapped lookups on objects of <= this many entries")
+	ap.add_argument("--convert", type=int, default=-1, help="C11 mode: Vec<bool>::try_from_json_at on arrays of <= this many items")
 	ap.add_argument("--budget", type=float, default=0)
 	ap.add_argument("--mir", default=None)
 	a = ap.parse_args()
@@ -1655,6 +1941,34 @@ def main():
 		out["mir_dump_s"] = round(dt, 1)
 		ex = Explorer(a.repo, text)
 		out["functions_encoded"] = ex.prog.encoded()
+		if a.convert >= 0:
+			ex.with_content = False
+			ex.explore_convert(a.convert, a.budget)
+			native = drvcheck.build_native(a.repo, a.build)
+			# translator validation: the values of the quick bound on the real code, against the same oracle
+			bad = []
+			nval = 0
+			for depth, vals in conv_values(min(a.convert, 2)):
+				for v in vals:
+					r = replay_convert(native, depth, conv_json(v))
+					nval += 1
+					if r["reproduced"]:
+						bad.append(r)
+			out["translator_validation"] = dict(values=nval, disagreements=bad[:3])
+			for v in ex.violations:
+				depth, text = v["history"][0][1]
+				v["native"] = replay_convert(native, depth, text)
+			if bad and not ex.violations:
+				raise MirError("translator validation failed: the real conversion deviates from the oracle on a value the interpreter passes: %s" % json.dumps(bad[0]))
+			out.update(max_items=a.convert, pairs=ex.pairs, histories=ex.pairs, operations_run=ex.ops_run, mir_steps=ex.ip.stats["steps"], solver_queries=ex.keys.queries,
+			           solver_time_s=round(ex.keys.solver_time, 2), key_variables=len(ex.keys.vars), wall_s=round(time.time() - t0, 1), timed_out=ex.timed_out, violations=ex.violations)
+			out["ok"] = True
+			log("Vec<bool>::try_from_json_at, arrays of <= %d items: %d values converted, %d solver queries, %.1fs, %d violation(s)" % (a.convert, ex.pairs, ex.keys.queries, time.time() - t0, len(ex.violations)))
+			if a.out:
+				json.dump(out, open(a.out, "w"), indent=1, default=str)
+			else:
+				print(json.dumps(out, indent=1, default=str)[:4000])
+			return 0
 		if a.mapped >= 0:
 			ex.with_content = False
 			ex.explore_mapped(a.mapped, a.budget)
